@@ -24,5 +24,15 @@ let handle = function
     let whole_l = CrLfCheck.ok_from false data and whole_u = Utf8Check.well_formed data in
     let run_l = (match CrLfCheck.crlf_run false cs with Some _ -> true | None -> false) and run_u = Utf8Check.utf8_run [] cs in
     if run_l <> whole_l || run_u <> whole_u then "MODEL-SPLIT" else if run_l && run_u then "OK" else "ERR"
+  | ["msgread"; payload; reqs] ->
+    (* the consumer of the harness: a read into an empty buffer before every read, request sizes taken in turn *)
+    let p = bytes_of_hex payload in
+    let rs = Stdlib.Array.of_list (ns_of reqs) in
+    let k = Stdlib.List.length p + 2 in
+    let rec build i acc = if i < 0 then acc else build (i - 1) (BinNums.N0 :: (if Stdlib.Array.length rs = 0 then n_of_int 65536 else rs.(i mod Stdlib.Array.length rs)) :: acc) in
+    (match ReadEnd.consume (ReadEnd.msg_read true) (build (k - 1) []) p with
+     | (out, Some true) -> "OK " ^ hex_of_bytes out
+     | (_, Some false) -> "FAIL"
+     | (_, None) -> "NOEND")
   | _ -> "MODEL-ERROR unknown op"
 let () = run handle
